@@ -2,6 +2,784 @@
   Helper lemmas (RunI): run-level idle argument.
 -/
 import TB.Spec.ExportSpec
+import TB.Props.C04
+import TB.Props.C04a
+import TB.Lemmas.RunB
+import TB.Lemmas.RunC
+import TB.Lemmas.RunG
+import TB.Lemmas.RunARun
+import TB.Lemmas.RunF
+import TB.Lemmas.RunDReplay
 namespace TB.RunI
+open TB.RC
+
+/-! ### names of a well-formed tree -/
+
+theorem fst_unique {α β : Type} {l : List (α × β)} (hnd : (l.map (·.1)).Nodup) {p : α} {i j : β}
+    (hi : (p, i) ∈ l) (hj : (p, j) ∈ l) : i = j := by
+  induction l with
+  | nil => cases hi
+  | cons a l ih =>
+    rw [List.map_cons, List.nodup_cons] at hnd
+    rcases List.mem_cons.1 hi with h1 | h1 <;> rcases List.mem_cons.1 hj with h2 | h2
+    · rw [← h1] at h2
+      exact (Prod.mk.inj h2).2.symm
+    · exfalso
+      apply hnd.1
+      rw [← h1]
+      exact List.mem_map.2 ⟨(p, j), h2, rfl⟩
+    · exfalso
+      apply hnd.1
+      rw [← h2]
+      exact List.mem_map.2 ⟨(p, i), h1, rfl⟩
+    · exact ih hnd.2 h1 h2
+
+/-- in a well-formed tree every bound name resolves to its inode -/
+theorem look_of_mem {fs : Fs} (hwf : FsWF fs) {p : Path} {i : Nat} (h : (p, i) ∈ fs.files) :
+    fs.look p = .file i := by
+  obtain ⟨_, hnd, hnotdir, hpre⟩ := hwf
+  apply RunF.look_file_of
+  · rw [Bool.eq_false_iff]
+    intro hany
+    obtain ⟨q, hq, hs⟩ := List.any_eq_true.1 hany
+    obtain ⟨j, hj⟩ := Option.isSome_iff_exists.1 hs
+    have h1 := hnotdir q j (RunF.inoOf_mem hj)
+    have h2 := hpre p i h q hq
+    rw [h1] at h2
+    cases h2
+  · exact hnotdir p i h
+  · cases hi : fs.inoOf p with
+    | none => exact absurd rfl (RunF.inoOf_none hi (p, i) h)
+    | some j => rw [fst_unique hnd (RunF.inoOf_mem hi) h]
+
+/-! ### the cache only holds regular files -/
+
+/-- every name in the cache resolves to the inode it is registered with -/
+def CF (fs : Fs) (c : Cache) : Prop := ∀ len m, (len, m) ∈ c → ∀ x ∈ m, fs.look x.1 = .file x.2
+
+theorem cacheGet_mem {c : Cache} {len : Nat} {m : List (Path × Nat)} (h : cacheGet c len = some m) :
+    ∃ l, (l, m) ∈ c := by
+  unfold cacheGet at h
+  rw [Option.map_eq_some_iff] at h
+  obtain ⟨e, he, rfl⟩ := h
+  exact ⟨e.1, List.mem_of_find?_eq_some he⟩
+
+theorem CF.get {fs : Fs} {c : Cache} (h : CF fs c) {len : Nat} {m : List (Path × Nat)}
+    (hm : cacheGet c len = some m) : ∀ x ∈ m, fs.look x.1 = .file x.2 := by
+  obtain ⟨l, hl⟩ := cacheGet_mem hm
+  exact h l m hl
+
+theorem CF.nil (fs : Fs) : CF fs [] := by
+  intro len m h; cases h
+
+theorem CF.insert {fs : Fs} {c : Cache} (h : CF fs c) (len : Nat) {p : Path} {i : Nat}
+    (hp : fs.look p = .file i) : CF fs (cacheInsert c len p i) := by
+  unfold cacheInsert
+  cases hg : cacheGet c len with
+  | none =>
+    simp only
+    intro l m hm x hx
+    rcases List.mem_cons.1 hm with hm | hm
+    · obtain ⟨_, rfl⟩ := Prod.mk.inj hm
+      rw [List.mem_singleton] at hx
+      subst hx
+      exact hp
+    · exact h l m hm x hx
+  | some m0 =>
+    simp only
+    intro l m hm x hx
+    rcases List.mem_cons.1 hm with hm | hm
+    · obtain ⟨_, rfl⟩ := Prod.mk.inj hm
+      rcases List.mem_cons.1 hx with rfl | hx
+      · exact hp
+      · exact h.get hg x (List.mem_filter.1 hx).1
+    · exact h l m (List.mem_filter.1 hm).1 x hx
+
+theorem openr_roext (st : St) (p : Path) : ROExt st (st.openr p).1 :=
+  St.op_pure_ext (k := .openr) (b := fun fs => match fs.look p with | .file _ => true | .dir => true | _ => false)
+    rfl (show st.op .openr p _ = ((st.openr p).1, (st.openr p).2) from rfl)
+
+theorem addExportPaths_idle (fs : Fs) (st : St) (c : Cache) (table : List TEntry)
+    (hfs : st.fs = fs) (hc : CF fs c) :
+    ROExt st (addExportPaths st c table).1 ∧ CF fs (addExportPaths st c table).2 := by
+  induction table generalizing st c with
+  | nil => exact ⟨ROExt.refl _, hc⟩
+  | cons e es ih =>
+    rw [RunG.addExportPaths_cons]
+    have e1 := openr_roext st e.fullTarget
+    have hfs1 : (st.openr e.fullTarget).1.fs = fs := e1.fs.trans hfs
+    split
+    · exact ih st c hfs hc
+    · split
+      · obtain ⟨a, b⟩ := ih _ c hfs1 hc
+        exact ⟨e1.trans a, b⟩
+      · split
+        · rename_i i hi
+          split
+          · obtain ⟨a, b⟩ := ih _ _ hfs1 (hc.insert e.fileLength (by rw [← hfs1]; exact hi))
+            exact ⟨e1.trans a, b⟩
+          · obtain ⟨a, b⟩ := ih _ c hfs1 hc
+            exact ⟨e1.trans a, b⟩
+        · obtain ⟨a, b⟩ := ih _ c hfs1 hc
+          exact ⟨e1.trans a, b⟩
+
+theorem addByDirectory_cf {fs : Fs} (hwf : FsWF fs) {c : Cache} (hc : CF fs c) (dir : Path) (lengths : List Nat) :
+    CF fs (addByDirectory fs c dir lengths) := by
+  unfold addByDirectory
+  have key : ∀ (l : List (Path × Nat)), (∀ e ∈ l, e ∈ fs.files) → ∀ c, CF fs c →
+      CF fs (l.foldl (fun c e =>
+        let len := (fs.content e.2).length
+        if dir.length ≤ e.1.length && e.1.take dir.length == dir && e.1 != dir && lengths.contains len
+        then cacheInsert c len e.1 e.2 else c) c) := by
+    intro l
+    induction l with
+    | nil => intro _ c hc; exact hc
+    | cons a l ih =>
+      intro hl c hc
+      rw [List.foldl_cons]
+      apply ih (fun e he => hl e (List.mem_cons_of_mem _ he))
+      simp only
+      split
+      · exact hc.insert _ (look_of_mem hwf (hl a List.mem_cons_self))
+      · exact hc
+  exact key fs.files (fun _ h => h) c hc
+
+theorem scan_cf {fs : Fs} (hwf : FsWF fs) (lengths : List Nat) (scan : List PathArg) {c : Cache} (hc : CF fs c) :
+    CF fs (scan.foldl (fun c d => addByDirectory fs c d.path lengths) c) := by
+  induction scan generalizing c with
+  | nil => exact hc
+  | cons d ds ih => exact ih (addByDirectory_cf hwf hc d.path lengths)
+
+/-! ### candidate lists -/
+
+theorem validSearches_sub {e : TEntry} {m : List (Path × Nat)} {obs : List Path}
+    (h : validSearches e m obs = true) : ∀ p ∈ obs, ∃ i, (p, i) ∈ m := by
+  unfold validSearches at h
+  simp only [Bool.and_eq_true] at h
+  obtain ⟨⟨⟨⟨h1, _⟩, _⟩, _⟩, _⟩ := h
+  intro p hp
+  have := List.all_eq_true.1 h1 p hp
+  obtain ⟨j, hj⟩ := Option.isSome_iff_exists.1 this
+  rw [Option.map_eq_some_iff] at hj
+  obtain ⟨y, hy, hy2⟩ := hj
+  have hm := List.mem_of_find?_eq_some hy
+  have hp := List.find?_some hy
+  refine ⟨y.2, ?_⟩
+  have : y.1 = p := by simpa using hp
+  rw [← this]
+  exact hm
+
+theorem mem_pruneLinks (l : List (Path × Nat)) (seen : List Nat) (p : Path) (h : p ∈ pruneLinks l seen) :
+    ∃ i, (p, i) ∈ l := by
+  induction l generalizing seen with
+  | nil => simp [pruneLinks] at h
+  | cons a rest ih =>
+    obtain ⟨p0, i0⟩ := a
+    rw [pruneLinks] at h
+    split at h
+    · obtain ⟨i, hi⟩ := ih seen h
+      exact ⟨i, List.mem_cons_of_mem _ hi⟩
+    · rcases List.mem_cons.1 h with rfl | h
+      · exact ⟨i0, List.mem_cons_self⟩
+      · obtain ⟨i, hi⟩ := ih _ h
+        exact ⟨i, List.mem_cons_of_mem _ hi⟩
+
+theorem canonicalSearches_sub (e : TEntry) (m : List (Path × Nat)) :
+    ∀ p ∈ canonicalSearches e m, ∃ i, (p, i) ∈ m := by
+  intro p hp
+  unfold canonicalSearches at hp
+  obtain ⟨i, hi⟩ := mem_pruneLinks _ _ p hp
+  exact ⟨i, (RunG.mem_sortBy _ _ _).1 hi⟩
+
+/-- insertion into a list whose head has key 0 (or inserting a key-0 element) yields a head of key 0 -/
+theorem insertBy_head_zero {α : Type} (f : α → Nat) (g : α → α → Bool) (a : α) (l : List α)
+    (h : f a = 0 ∨ ∃ b t, l = b :: t ∧ f b = 0) :
+    ∃ b t, insertBy (fun x y => f x < f y || (f x == f y && g x y)) a l = b :: t ∧ f b = 0 := by
+  cases l with
+  | nil =>
+    rcases h with h | ⟨b, t, hl, _⟩
+    · exact ⟨a, [], rfl, h⟩
+    · cases hl
+  | cons b bs =>
+    rw [insertBy]
+    split
+    · rename_i hlt
+      refine ⟨a, b :: bs, rfl, ?_⟩
+      rcases h with h | ⟨b', t, hl, hb⟩
+      · exact h
+      · cases hl
+        simp only [Bool.or_eq_true, decide_eq_true_eq, Bool.and_eq_true, beq_iff_eq] at hlt
+        omega
+    · rename_i hlt
+      refine ⟨b, _, rfl, ?_⟩
+      rcases h with h | ⟨b', t, hl, hb⟩
+      · simp only [Bool.or_eq_true, decide_eq_true_eq, Bool.and_eq_true, beq_iff_eq, not_or, not_and] at hlt
+        omega
+      · cases hl
+        exact hb
+
+theorem sortBy_head_zero {α : Type} (f : α → Nat) (g : α → α → Bool) (l : List α) (x : α) (hx : x ∈ l)
+    (h0 : f x = 0) :
+    ∃ b t, sortBy (fun x y => f x < f y || (f x == f y && g x y)) l = b :: t ∧ f b = 0 := by
+  induction l with
+  | nil => cases hx
+  | cons a l ih =>
+    unfold sortBy
+    rw [List.foldr_cons]
+    apply insertBy_head_zero
+    rcases List.mem_cons.1 hx with rfl | hx
+    · exact Or.inl h0
+    · exact Or.inr (ih hx)
+
+/-- the canonical order lists a registered export image first -/
+theorem canonicalSearches_head (e : TEntry) (m : List (Path × Nat)) (i : Nat) (hm : (e.fullTarget, i) ∈ m) :
+    ∃ rest, canonicalSearches e m = e.fullTarget :: rest := by
+  unfold canonicalSearches
+  obtain ⟨b, t, hs, hb⟩ := sortBy_head_zero (fun a : Path × Nat => similarity a.1 e.partialTarget e.fullTarget)
+    (fun a b => pathLt a.1 b.1) m (e.fullTarget, i) hm (similarity_eq_zero.2 rfl)
+  simp only at hs hb ⊢
+  rw [hs]
+  obtain ⟨p, j⟩ := b
+  rw [pruneLinks]
+  simp only [List.contains_nil, Bool.false_eq_true, if_false]
+  have hp : p = e.fullTarget := similarity_eq_zero.1 hb
+  rw [hp]
+  exact ⟨_, rfl⟩
+
+/-- what `populateSearches` gives an entry whose length is in the cache -/
+theorem populate_spec (c : Cache) (obs : List (Nat × List Path)) (es : List TEntry) :
+    ∀ e' ∈ (populateSearches c obs es).1, e'.isPad = false → ∀ m, cacheGet c e'.fileLength = some m →
+      ∃ paths, e'.searches = some paths ∧ (validSearches e' m paths = true ∨ paths = canonicalSearches e' m) := by
+  induction es with
+  | nil => intro e' he'; simp [populateSearches] at he'
+  | cons e es ih =>
+    unfold populateSearches
+    rcases hrest : populateSearches c obs es with ⟨rest, okRest⟩
+    rw [hrest] at ih
+    simp only at ih
+    simp only []
+    have tl : ∀ (h : TEntry), (h.isPad = false → ∀ m, cacheGet c h.fileLength = some m →
+          ∃ paths, h.searches = some paths ∧ (validSearches h m paths = true ∨ paths = canonicalSearches h m)) →
+        ∀ e' ∈ h :: rest, e'.isPad = false → ∀ m, cacheGet c e'.fileLength = some m →
+          ∃ paths, e'.searches = some paths ∧ (validSearches e' m paths = true ∨ paths = canonicalSearches e' m) := by
+      intro h hh e' he'
+      rcases List.mem_cons.1 he' with rfl | he'
+      · exact hh
+      · exact ih e' he'
+    split
+    · rename_i hp
+      exact tl e (fun h => by rw [h] at hp; cases hp)
+    split
+    · rename_i hn
+      exact tl e (fun _ m hm => by rw [hn] at hm; cases hm)
+    · rename_i m0 hm0
+      split
+      · rename_i o ho
+        split
+        · rename_i hv
+          exact tl _ (fun _ m hm => by
+            simp only at hm
+            rw [hm0] at hm; cases hm
+            exact ⟨o, rfl, Or.inl hv⟩)
+        · exact tl _ (fun _ m hm => by
+            simp only at hm
+            rw [hm0] at hm; cases hm
+            exact ⟨_, rfl, Or.inr rfl⟩)
+      · exact tl _ (fun _ m hm => by
+            simp only at hm
+            rw [hm0] at hm; cases hm
+            exact ⟨_, rfl, Or.inr rfl⟩)
+
+/-! ### validation without faults -/
+
+theorem validatePath_ok (st : St) (a : PathArg) (hf : st.faults = []) (ha : a.absolute = true)
+    (hd : st.fs.look a.path = .dir) : (validatePath st a).2 = true := by
+  unfold validatePath
+  rw [ha]
+  simp only [Bool.not_true, Bool.false_eq_true, if_false]
+  rw [RB.St.op_nofault _ _ _ _ (by rw [hf]; rfl)]
+  simp [hd]
+
+theorem validateAll_ok (st : St) (args : List PathArg) (hf : st.faults = [])
+    (h : ∀ a ∈ args, a.absolute = true ∧ st.fs.look a.path = .dir) : (validateAll st args).2 = true := by
+  induction args generalizing st with
+  | nil => rfl
+  | cons a as ih =>
+    unfold validateAll
+    have hok := validatePath_ok st a hf (h a List.mem_cons_self).1 (h a List.mem_cons_self).2
+    obtain ⟨h1, h2, _, _⟩ := RB.validatePath_spec st a
+    rcases hv : validatePath st a with ⟨st1, ok⟩
+    rw [hv] at hok h1 h2
+    simp only at hok h1 h2
+    subst hok
+    simp only
+    exact ih st1 (h2.trans hf) (fun b hb => by rw [h1]; exact h b (List.mem_cons_of_mem _ hb))
+
+theorem validateAll_roext (st : St) (args : List PathArg) : ROExt st (validateAll st args).1 := by
+  obtain ⟨h1, h2, ⟨new, h3, h4⟩, _⟩ := RB.validateAll_spec st args
+  exact ⟨h1, h2, new, h3, fun o ho => by rw [h4 o ho]; rfl⟩
+
+/-! ### evaluation of verified pieces -/
+
+theorem solvePiece_idle (H : Bytes → Bytes) (st : St) (w : Work)
+    (hnf : NoFutureFaults st)
+    (hfirst : ∀ seg ∈ w.segs, seg.ent.isPad = false →
+      ∃ rest i, seg.ent.searches = some (seg.ent.fullTarget :: rest) ∧ st.fs.look seg.ent.fullTarget = .file i
+        ∧ seg.off + seg.len ≤ (st.fs.content i).length)
+    (hreadable : ∀ seg ∈ w.segs, ∀ paths, seg.ent.searches = some paths → ∀ p ∈ paths, ∃ i, st.fs.look p = .file i)
+    (hver : VerE H st.fs w) :
+    (solvePiece H st w).2 = .found ∧ ROExt st (solvePiece H st w).1 := by
+  by_cases hs : w.segs = []
+  · obtain ⟨parts, hp, hh⟩ := hver
+    rw [hs] at hp
+    simp at hp
+    subst hp
+    have : solvePiece H st w = (st, .found) := by
+      unfold solvePiece
+      rw [hs]
+      have hh' : H [] = w.hash := by simpa using hh
+      simp [preload, searchProduct, writeSegs, hh']
+    rw [this]
+    exact ⟨rfl, ROExt.refl _⟩
+  · obtain ⟨h1, h2, h3⟩ := C04b_untouched H st w hnf hs hfirst hreadable hver
+    refine ⟨h1, ?_⟩
+    obtain ⟨hfa, new, hops, _⟩ := RD.solvePiece_reach H st w
+    refine ⟨h2, hfa, new, hops, ?_⟩
+    have : newOps st (solvePiece H st w).1 = new := by
+      unfold newOps
+      rw [hops, List.drop_left]
+    rw [this] at h3
+    exact h3
+
+theorem solveAll_idle (H : Bytes → Bytes) (P : Work → Prop) (fs : Fs)
+    (hP : ∀ w st, P w → st.fs = fs → st.faults = [] →
+      (solvePiece H st w).2 = .found ∧ ROExt st (solvePiece H st w).1) :
+    ∀ (ws : List Work) (st : St) (c : Counters) (acc : List Counters),
+      (∀ w ∈ ws, P w) → st.fs = fs → st.faults = [] →
+      (solveAll H st ws c acc).2.2 = false ∧ ROExt st (solveAll H st ws c acc).1 ∧
+      (((solveAll H st ws c acc).2.1 = acc ∧ ws = []) ∨
+        (solveAll H st ws c acc).2.1.getLast? = some ⟨c.success + ws.length, c.failed, c.fault⟩) := by
+  intro ws
+  induction ws with
+  | nil =>
+    intro st c acc _ _ _
+    exact ⟨rfl, ROExt.refl _, Or.inl ⟨rfl, rfl⟩⟩
+  | cons w ws ih =>
+    intro st c acc hws hfs hfa
+    obtain ⟨hf, he⟩ := hP w st (hws w List.mem_cons_self) hfs hfa
+    rw [RB.solveAll_cons, if_neg (by rw [hf]; exact fun h => by cases h), hf]
+    obtain ⟨i1, i2, i3⟩ := ih (solvePiece H st w).1 (c.bump .found) (acc ++ [c.bump .found])
+      (fun x hx => hws x (List.mem_cons_of_mem _ hx)) (he.fs.trans hfs) (he.faults.trans hfa)
+    refine ⟨i1, he.trans i2, Or.inr ?_⟩
+    rcases i3 with ⟨i3, rfl⟩ | i3
+    · rw [i3]
+      simp [Counters.bump]
+    · rw [i3]
+      simp only [Counters.bump, List.length_cons, Option.some.injEq, Counters.mk.injEq, and_true]
+      omega
+
+/-! ### the resize pre-flight when there is nothing to fix -/
+
+theorem openr_val (st : St) (hf : st.faults = []) (p : Path) :
+    (st.openr p).2 = (match st.fs.look p with | .file _ => true | .dir => true | _ => false) := by
+  unfold St.openr
+  rw [RB.St.op_nofault _ _ _ _ (by rw [hf]; rfl)]
+  rfl
+
+theorem openrw_val (st : St) (hf : st.faults = []) (p : Path) :
+    (st.op .openrw p (RB.natOpenrw p)).2 = (match st.fs.look p with | .file _ => true | _ => false) := by
+  rw [RB.St.op_nofault _ _ _ _ (by rw [hf]; rfl)]
+  rfl
+
+theorem openrw_roext (st : St) (p : Path) : ROExt st (st.op .openrw p (RB.natOpenrw p)).1 :=
+  St.op_pure_ext (k := .openrw) (b := fun fs => match fs.look p with | .file _ => true | _ => false)
+    rfl (show st.op .openrw p _ = ((st.op .openrw p (RB.natOpenrw p)).1, (st.op .openrw p (RB.natOpenrw p)).2) from rfl)
+
+/-- no export image of the table has the wrong length, is a directory, or lies below a regular file -/
+def LensOk (fs : Fs) (es : List TEntry) : Prop :=
+  ∀ e ∈ es, e.isPad = false →
+    (∀ i, fs.look e.fullTarget = .file i → (fs.content i).length = e.fileLength) ∧
+    fs.look e.fullTarget ≠ .notDir ∧ fs.look e.fullTarget ≠ .dir
+
+theorem LensOk.tail {fs : Fs} {e : TEntry} {es : List TEntry} (h : LensOk fs (e :: es)) : LensOk fs es :=
+  fun x hx => h x (List.mem_cons_of_mem _ hx)
+
+theorem resizePass1_idle (fs : Fs) (es : List TEntry) (h : LensOk fs es) :
+    ∀ st : St, st.fs = fs → st.faults = [] →
+      (resizePass1 st es).2 = .continue ∧ ROExt st (resizePass1 st es).1 := by
+  induction es with
+  | nil => intro st _ _; exact ⟨rfl, ROExt.refl _⟩
+  | cons e es ih =>
+    intro st hfs hfa
+    rw [RB.resizePass1_cons]
+    have e1 := openr_roext st e.fullTarget
+    have tl := ih h.tail (st.openr e.fullTarget).1 (e1.fs.trans hfs) (e1.faults.trans hfa)
+    have tl' : (resizePass1 (st.openr e.fullTarget).1 es).2 = .continue ∧
+        ROExt st (resizePass1 (st.openr e.fullTarget).1 es).1 := ⟨tl.1, e1.trans tl.2⟩
+    cases hp : e.isPad
+    · obtain ⟨hl, hnd, hd⟩ := h e List.mem_cons_self hp
+      rw [← hfs] at hl hnd hd
+      have hv := openr_val st hfa e.fullTarget
+      simp only [Bool.false_eq_true, if_false]
+      cases hlook : st.fs.look e.fullTarget with
+      | notDir => exact absurd hlook hnd
+      | dir => exact absurd hlook hd
+      | notFound =>
+        rw [hlook] at hv
+        simp only at hv
+        rw [hv, hfa]
+        simpa using tl'
+      | file i =>
+        rw [hlook] at hv
+        simp only at hv
+        have := hl i hlook
+        rw [← e1.fs] at this
+        rw [hv]
+        simp only [Bool.not_true, Bool.false_eq_true, if_false]
+        rw [if_neg (by rw [this]; exact Nat.lt_irrefl _)]
+        exact tl'
+    · simp only [if_true]
+      exact ih h.tail st hfs hfa
+
+theorem resizePass2_idle (fs : Fs) (es : List TEntry) (h : LensOk fs es) :
+    ∀ st : St, st.fs = fs → st.faults = [] →
+      (resizePass2 st es).2 = .continue ∧ ROExt st (resizePass2 st es).1 := by
+  induction es with
+  | nil => intro st _ _; exact ⟨rfl, ROExt.refl _⟩
+  | cons e es ih =>
+    intro st hfs hfa
+    rw [RB.resizePass2_cons]
+    have e1 := openrw_roext st e.fullTarget
+    have tl := ih h.tail (st.op .openrw e.fullTarget (RB.natOpenrw e.fullTarget)).1 (e1.fs.trans hfs) (e1.faults.trans hfa)
+    have tl' : (resizePass2 (st.op .openrw e.fullTarget (RB.natOpenrw e.fullTarget)).1 es).2 = .continue ∧
+        ROExt st (resizePass2 (st.op .openrw e.fullTarget (RB.natOpenrw e.fullTarget)).1 es).1 := ⟨tl.1, e1.trans tl.2⟩
+    cases hp : e.isPad
+    · obtain ⟨hl, hnd, hd⟩ := h e List.mem_cons_self hp
+      rw [← hfs] at hl hnd hd
+      have hv := openrw_val st hfa e.fullTarget
+      simp only [Bool.false_eq_true, if_false]
+      cases hlook : st.fs.look e.fullTarget with
+      | notDir => exact absurd hlook hnd
+      | dir => exact absurd hlook hd
+      | notFound =>
+        rw [hlook] at hv
+        simp only at hv
+        rw [hv, hfa]
+        simpa using tl'
+      | file i =>
+        rw [hlook] at hv
+        simp only at hv
+        have := hl i hlook
+        rw [← e1.fs] at this
+        rw [hv]
+        simp only [Bool.not_true, Bool.false_eq_true, if_false]
+        rw [if_neg (by rw [this]; exact Nat.lt_irrefl _)]
+        exact tl'
+    · simp only [if_true]
+      exact ih h.tail st hfs hfa
+
+theorem fixExportFileLengths_idle (fs : Fs) (es : List TEntry) (h : LensOk fs es) (st : St)
+    (hfs : st.fs = fs) (hfa : st.faults = []) :
+    (fixExportFileLengths st es).2 = .continue ∧ ROExt st (fixExportFileLengths st es).1 := by
+  unfold fixExportFileLengths
+  obtain ⟨a1, a2⟩ := resizePass1_idle fs es h st hfs hfa
+  rcases hp : resizePass1 st es with ⟨st1, fl⟩
+  rw [hp] at a1 a2
+  simp only at a1 a2
+  subst a1
+  simp only
+  obtain ⟨b1, b2⟩ := resizePass2_idle fs es h st1 (a2.fs.trans hfs) (a2.faults.trans hfa)
+  exact ⟨b1, a2.trans b2⟩
+
+/-! ### the shape of a run that gets past the pre-flight -/
+
+theorem run_continue (H : Bytes → Bytes) (inp : RunIn) (hne : inp.torrents ≠ [])
+    (st1 st2 st3 : St) (cache0 : Cache) (table : List TEntry) (okS : Bool)
+    (hval : validateAll ⟨inp.fs, [], inp.faults⟩ (inp.scan ++ [inp.exportDir]) = (st1, true))
+    (hflow : (if inp.resize then
+        fixExportFileLengths st1 (buildTable inp.exportDir.path (dedupTorrents (sortTorrents inp.torrents)) 0)
+        else (st1, Flow.continue)) = (st2, Flow.continue))
+    (hadd : addExportPaths st2 [] (buildTable inp.exportDir.path (dedupTorrents (sortTorrents inp.torrents)) 0)
+      = (st3, cache0))
+    (hpop : populateSearches
+        (inp.scan.foldl (fun c d => addByDirectory st3.fs c d.path
+          (uniqueLengths (buildTable inp.exportDir.path (dedupTorrents (sortTorrents inp.torrents)) 0))) cache0)
+        inp.searchObs (buildTable inp.exportDir.path (dedupTorrents (sortTorrents inp.torrents)) 0) = (table, okS)) :
+    (run H inp).table = table ∧
+    ∀ work, convertPiecesToWork table (dedupTorrents (sortTorrents inp.torrents)) = some work →
+      (run H inp).work = work ∧
+      ∃ ordered, (∀ w ∈ ordered, w ∈ work) ∧ ordered.length = work.length ∧
+        (run H inp).result = (if (solveAll H st3 ordered ⟨0, 0, 0⟩ []).2.2 then .panic else .ok ()) ∧
+        (run H inp).ops = (solveAll H st3 ordered ⟨0, 0, 0⟩ []).1.ops ∧
+        (run H inp).fs = (solveAll H st3 ordered ⟨0, 0, 0⟩ []).1.fs ∧
+        (run H inp).counters = (solveAll H st3 ordered ⟨0, 0, 0⟩ []).2.1 := by
+  have hemp : inp.torrents.isEmpty = false := by cases ht : inp.torrents <;> simp_all
+  unfold run
+  simp only [hemp, Bool.false_eq_true, if_false, hval, hflow, hadd, hpop]
+  constructor
+  · split <;> rfl
+  · intro work hw
+    simp only [hw]
+    refine ⟨trivial, (match reorder work inp.order with
+                          | some o => (o, true)
+                          | none => (defaultOrder work, inp.order.isEmpty)).fst, ?_, ?_, rfl, rfl, rfl, rfl⟩
+    · cases hr : reorder work inp.order with
+      | some o => exact reorder_mem hr
+      | none => intro w hw; exact List.mem_reverse.1 hw
+    · cases hr : reorder work inp.order with
+      | some o => exact RB.reorder_length _ _ _ hr
+      | none => simp [defaultOrder]
+
+/-! ### small facts about tables and `mapM` -/
+
+theorem mapM_some_all {α β : Type} {f : α → Option β} {l : List α} {ys : List β}
+    (h : l.mapM f = some ys) : ∀ a ∈ l, ∃ b, f a = some b := by
+  induction l generalizing ys with
+  | nil => intro a ha; cases ha
+  | cons a l ih =>
+    rw [List.mapM_cons] at h
+    cases ha : f a with
+    | none => simp [ha] at h
+    | some b =>
+      cases hl : l.mapM f with
+      | none => simp [ha, hl] at h
+      | some bs =>
+        intro x hx
+        rcases List.mem_cons.1 hx with rfl | hx
+        · exact ⟨b, ha⟩
+        · exact ih hl x hx
+
+theorem entriesOfFiles_searches (exportDir : Path) (t : Torrent) (fs : List FileRec) (idx id : Nat) :
+    ∀ e ∈ entriesOfFiles exportDir t fs idx id, e.searches = none := by
+  induction fs generalizing idx id with
+  | nil => intro e he; simp [entriesOfFiles] at he
+  | cons f fs ih =>
+    intro e he
+    rw [entriesOfFiles] at he
+    rcases List.mem_cons.1 he with rfl | he
+    · rfl
+    · exact ih _ _ e he
+
+theorem buildTable_searches (exportDir : Path) (ts : List Torrent) (id : Nat) :
+    ∀ e ∈ buildTable exportDir ts id, e.searches = none := by
+  induction ts generalizing id with
+  | nil => intro e he; simp [buildTable] at he
+  | cons t ts ih =>
+    intro e he
+    rw [buildTable] at he
+    split at he
+    · simp only at he
+      rcases List.mem_append.1 he with he | he
+      · exact entriesOfFiles_searches _ _ _ _ _ e he
+      · exact ih _ e he
+    · rcases List.mem_cons.1 he with rfl | he
+      · rfl
+      · exact ih _ e he
+    · exact ih _ e he
+
+/-- a candidate list in the populated table is either inherited or drawn from one cache class -/
+theorem populate_searches_sub (c : Cache) (obs : List (Nat × List Path)) (es : List TEntry) :
+    ∀ e' ∈ (populateSearches c obs es).1, ∀ paths, e'.searches = some paths →
+      (∃ e ∈ es, e.searches = some paths) ∨
+      (∃ len m, cacheGet c len = some m ∧ ∀ p ∈ paths, ∃ i, (p, i) ∈ m) := by
+  induction es with
+  | nil => intro e' he'; simp [populateSearches] at he'
+  | cons e es ih =>
+    unfold populateSearches
+    rcases hrest : populateSearches c obs es with ⟨rest, okRest⟩
+    rw [hrest] at ih
+    simp only at ih
+    simp only []
+    have tl : ∀ (h : TEntry), (∀ paths, h.searches = some paths →
+          (∃ e0 ∈ e :: es, e0.searches = some paths) ∨
+          (∃ len m, cacheGet c len = some m ∧ ∀ p ∈ paths, ∃ i, (p, i) ∈ m)) →
+        ∀ e' ∈ h :: rest, ∀ paths, e'.searches = some paths →
+          (∃ e0 ∈ e :: es, e0.searches = some paths) ∨
+          (∃ len m, cacheGet c len = some m ∧ ∀ p ∈ paths, ∃ i, (p, i) ∈ m) := by
+      intro h hh e' he'
+      rcases List.mem_cons.1 he' with rfl | he'
+      · exact hh
+      · intro paths hp
+        rcases ih e' he' paths hp with ⟨e0, he0, h0⟩ | r
+        · exact Or.inl ⟨e0, List.mem_cons_of_mem _ he0, h0⟩
+        · exact Or.inr r
+    have self : ∀ paths, e.searches = some paths →
+          (∃ e0 ∈ e :: es, e0.searches = some paths) ∨
+          (∃ len m, cacheGet c len = some m ∧ ∀ p ∈ paths, ∃ i, (p, i) ∈ m) :=
+      fun paths hp => Or.inl ⟨e, List.mem_cons_self, hp⟩
+    split
+    · exact tl e self
+    split
+    · exact tl e self
+    · rename_i m0 hm0
+      split
+      · rename_i o ho
+        split
+        · rename_i hv
+          exact tl _ (fun paths hp => by
+            simp only [Option.some.injEq] at hp
+            subst hp
+            exact Or.inr ⟨_, m0, hm0, validSearches_sub hv⟩)
+        · exact tl _ (fun paths hp => by
+            simp only [Option.some.injEq] at hp
+            subst hp
+            exact Or.inr ⟨_, m0, hm0, canonicalSearches_sub e m0⟩)
+      · exact tl _ (fun paths hp => by
+            simp only [Option.some.injEq] at hp
+            subst hp
+            exact Or.inr ⟨_, m0, hm0, canonicalSearches_sub e m0⟩)
+
+/-! ### the idle run -/
+
+theorem idle_core (H : Bytes → Bytes) (inp : RunIn) (hwf : FsWF inp.fs) (hne : inp.torrents ≠ [])
+    (hfa : inp.faults = []) (st1 st2 : St)
+    (hval : validateAll ⟨inp.fs, [], inp.faults⟩ (inp.scan ++ [inp.exportDir]) = (st1, true))
+    (hflow : (if inp.resize then
+        fixExportFileLengths st1 (buildTable inp.exportDir.path (dedupTorrents (sortTorrents inp.torrents)) 0)
+        else (st1, Flow.continue)) = (st2, Flow.continue))
+    (h2 : ROExt ⟨inp.fs, [], inp.faults⟩ st2)
+    (hwork : ∃ ws, convertPiecesToWork (run H inp).table (dedupTorrents (sortTorrents inp.torrents)) = some ws)
+    (hall : ∀ w ∈ (run H inp).work, VerE H inp.fs w ∧ ∀ s ∈ w.segs, s.ent.isPad = false →
+      ∃ i, inp.fs.look s.ent.fullTarget = .file i ∧ (inp.fs.content i).length = s.ent.fileLength) :
+    (run H inp).result = .ok () ∧ (run H inp).fs = inp.fs ∧
+    (∀ o ∈ (run H inp).ops, o.kind.mutating = false) ∧
+    (∀ c ∈ (run H inp).counters.getLast?, c.success = (run H inp).work.length ∧ c.failed = 0 ∧ c.fault = 0) := by
+  have h2fs : st2.fs = inp.fs := h2.fs
+  have h2fa : st2.faults = [] := h2.faults.trans hfa
+  obtain ⟨e3, cf0⟩ := addExportPaths_idle inp.fs st2 []
+    (buildTable inp.exportDir.path (dedupTorrents (sortTorrents inp.torrents)) 0) h2fs (CF.nil _)
+  have hreg0 := fun e i he hpad hlook hlen => RunG.addExportPaths_registers st2 h2fa []
+    (buildTable inp.exportDir.path (dedupTorrents (sortTorrents inp.torrents)) 0) e i he hpad hlook hlen
+  rcases hadd : addExportPaths st2 []
+    (buildTable inp.exportDir.path (dedupTorrents (sortTorrents inp.torrents)) 0) with ⟨st3, cache0⟩
+  rw [hadd] at e3 cf0 hreg0
+  simp only at e3 cf0 hreg0
+  have h3fs : st3.fs = inp.fs := e3.fs.trans h2fs
+  have h3fa : st3.faults = [] := e3.faults.trans h2fa
+  have cf : CF inp.fs (inp.scan.foldl (fun c d => addByDirectory st3.fs c d.path
+      (uniqueLengths (buildTable inp.exportDir.path (dedupTorrents (sortTorrents inp.torrents)) 0))) cache0) := by
+    rw [h3fs]
+    exact scan_cf hwf _ _ cf0
+  have hspec := populate_spec (inp.scan.foldl (fun c d => addByDirectory st3.fs c d.path
+      (uniqueLengths (buildTable inp.exportDir.path (dedupTorrents (sortTorrents inp.torrents)) 0))) cache0)
+      inp.searchObs (buildTable inp.exportDir.path (dedupTorrents (sortTorrents inp.torrents)) 0)
+  have hsub := populate_searches_sub (inp.scan.foldl (fun c d => addByDirectory st3.fs c d.path
+      (uniqueLengths (buildTable inp.exportDir.path (dedupTorrents (sortTorrents inp.torrents)) 0))) cache0)
+      inp.searchObs (buildTable inp.exportDir.path (dedupTorrents (sortTorrents inp.torrents)) 0)
+  have hrel := (populateSearches_rel (inp.scan.foldl (fun c d => addByDirectory st3.fs c d.path
+      (uniqueLengths (buildTable inp.exportDir.path (dedupTorrents (sortTorrents inp.torrents)) 0))) cache0)
+      inp.searchObs (buildTable inp.exportDir.path (dedupTorrents (sortTorrents inp.torrents)) 0)).2
+  rcases hpop : populateSearches (inp.scan.foldl (fun c d => addByDirectory st3.fs c d.path
+      (uniqueLengths (buildTable inp.exportDir.path (dedupTorrents (sortTorrents inp.torrents)) 0))) cache0)
+      inp.searchObs (buildTable inp.exportDir.path (dedupTorrents (sortTorrents inp.torrents)) 0) with ⟨table, okS⟩
+  rw [hpop] at hspec hsub hrel
+  simp only at hspec hsub hrel
+  obtain ⟨htab, hrun⟩ := run_continue H inp hne st1 st2 st3 cache0 table okS hval hflow hadd hpop
+  obtain ⟨ws, hws⟩ := hwork
+  rw [htab] at hws
+  obtain ⟨hw, ordered, hmem, hlen, hres, hops, hfs, hcnt⟩ := hrun ws hws
+  rw [hw] at hall
+  have hent := convertPiecesToWork_ent hws
+  -- every piece of the run is found without touching anything
+  have hP : ∀ w st, w ∈ ws → st.fs = inp.fs → st.faults = [] →
+      (solvePiece H st w).2 = .found ∧ ROExt st (solvePiece H st w).1 := by
+    intro w st hwm hsfs hsfa
+    obtain ⟨hver, himg⟩ := hall w hwm
+    apply solvePiece_idle
+    · intro idx hidx
+      rw [hsfa] at hidx
+      cases hidx
+    · intro seg hseg hpad
+      obtain ⟨i, hlook, hlen⟩ := himg seg hseg hpad
+      have het := hent w hwm seg hseg
+      obtain ⟨e, he, s, hes⟩ := hrel seg.ent het
+      have hpad0 : e.isPad = false := by rw [hes] at hpad; exact hpad
+      have hlook0 : st2.fs.look e.fullTarget = .file i := by rw [h2fs]; rw [hes] at hlook; exact hlook
+      have hlen0 : (st2.fs.content i).length = e.fileLength := by rw [h2fs]; rw [hes] at hlen; exact hlen
+      have hreg := RunG.reg_scan (hreg0 e i he hpad0 hlook0 hlen0) st3.fs
+        (uniqueLengths (buildTable inp.exportDir.path (dedupTorrents (sortTorrents inp.torrents)) 0)) inp.scan
+      obtain ⟨m, hm, k, hk⟩ := hreg
+      have hm' : cacheGet (inp.scan.foldl (fun c d => addByDirectory st3.fs c d.path
+          (uniqueLengths (buildTable inp.exportDir.path (dedupTorrents (sortTorrents inp.torrents)) 0))) cache0)
+          seg.ent.fileLength = some m := by rw [hes]; exact hm
+      have hk' : (seg.ent.fullTarget, k) ∈ m := by rw [hes]; exact hk
+      have hki : k = i := by
+        have := cf.get hm' _ hk'
+        simp only at this
+        rw [hlook] at this
+        cases this
+        rfl
+      subst hki
+      obtain ⟨paths, hps, hor⟩ := hspec seg.ent het hpad m hm'
+      -- the segment lies inside the image
+      have hle : seg.off + seg.len ≤ (inp.fs.content k).length := by
+        obtain ⟨parts, hparts, _⟩ := hver
+        obtain ⟨b, hb⟩ := mapM_some_all hparts seg hseg
+        unfold segBytesIn at hb
+        rw [hpad, hlook] at hb
+        simp only [Bool.false_eq_true, if_false] at hb
+        split at hb
+        · assumption
+        · cases hb
+      rw [hsfs]
+      rcases hor with hv | hc
+      · have hhead := C04_export_first seg.ent m paths k hv hk' (fun x hx hxe => by
+          have := cf.get hm' x hx
+          rw [hxe, hlook] at this
+          cases this
+          rfl)
+        cases paths with
+        | nil => cases hhead
+        | cons a rest =>
+          simp only [List.head?_cons, Option.some.injEq] at hhead
+          subst hhead
+          exact ⟨rest, k, hps, hlook, hle⟩
+      · obtain ⟨rest, hrest⟩ := canonicalSearches_head seg.ent m k hk'
+        rw [hrest] at hc
+        subst hc
+        exact ⟨rest, k, hps, hlook, hle⟩
+    · intro seg hseg paths hps p hp
+      have het := hent w hwm seg hseg
+      rw [hsfs]
+      rcases hsub seg.ent het paths hps with ⟨e0, he0, h0⟩ | ⟨len, m, hm, hall'⟩
+      · rw [buildTable_searches _ _ _ e0 he0] at h0
+        cases h0
+      · obtain ⟨i, hi⟩ := hall' p hp
+        exact ⟨i, cf.get hm _ hi⟩
+    · rw [hsfs]
+      exact hver
+  obtain ⟨r1, r2, r3⟩ := solveAll_idle H (fun w => w ∈ ws) inp.fs hP ordered st3 ⟨0, 0, 0⟩ [] hmem h3fs h3fa
+  have hext : ROExt ⟨inp.fs, [], inp.faults⟩ (solveAll H st3 ordered ⟨0, 0, 0⟩ []).1 := (h2.trans e3).trans r2
+  refine ⟨?_, ?_, ?_, ?_⟩
+  · rw [hres, r1]
+    rfl
+  · rw [hfs]
+    exact hext.fs
+  · rw [hops]
+    obtain ⟨new, hnew, hmut⟩ := hext.ops
+    rw [hnew]
+    exact hmut
+  · rw [hcnt, hw, ← hlen]
+    intro c hc
+    rcases r3 with ⟨r3, rfl⟩ | r3
+    · rw [r3] at hc
+      cases hc
+    · rw [r3] at hc
+      simp only [Option.mem_def, Option.some.injEq] at hc
+      subst hc
+      simp
+
+/-- whatever way the run ends after validation, its table covers the table built from the torrents -/
+theorem run_table_cover (H : Bytes → Bytes) (inp : RunIn) (hne : inp.torrents ≠ []) (st1 : St)
+    (hval : validateAll ⟨inp.fs, [], inp.faults⟩ (inp.scan ++ [inp.exportDir]) = (st1, true)) :
+    ∀ e ∈ buildTable inp.exportDir.path (dedupTorrents (sortTorrents inp.torrents)) 0,
+      ∃ e' ∈ (run H inp).table, UpToSearches e e' := by
+  have hemp : inp.torrents.isEmpty = false := by cases ht : inp.torrents <;> simp_all
+  unfold run
+  simp only [hemp, Bool.false_eq_true, if_false, hval]
+  split
+  · intro e he
+    exact ⟨e, he, UpToSearches.refl e⟩
+  · split <;> exact (populateSearches_rel _ _ _).1
 
 end TB.RunI
